@@ -97,14 +97,14 @@ type Shape struct {
 	// (hashes, padding, encryption keys, tunnel ids).
 	Seed uint64 `json:"seed,omitempty"`
 	// Identity: signing/crypto key types, certificate form, key material seed.
-	Sig      int    `json:"sig,omitempty"`
-	Crypto   int    `json:"crypto,omitempty"`
-	Cert     string `json:"cert,omitempty"` // "null" | "key" | "type<N>"
-	Excess   int    `json:"excess,omitempty"`
+	Sig       int    `json:"sig,omitempty"`
+	Crypto    int    `json:"crypto,omitempty"`
+	Cert      string `json:"cert,omitempty"` // "null" | "key" | "type<N>"
+	Excess    int    `json:"excess,omitempty"`
 	IdentSeed uint64 `json:"ident_seed,omitempty"`
 	// Counts and scalar fields; meaning per kind (documented in refmodel).
-	N    int      `json:"n,omitempty"`
-	U    []uint64 `json:"u,omitempty"`
+	N    int         `json:"n,omitempty"`
+	U    []uint64    `json:"u,omitempty"`
 	Opts [][2]string `json:"opts,omitempty"`
 	// Offline block: transient key type (-1/absent = none) and its expiry.
 	Offline *OfflineShape `json:"offline,omitempty"`
